@@ -441,7 +441,16 @@ def step (w : World) (line : String) : World × String :=
     | some e, some s => (w, match w.obj? e.2.cx with | some o => "ok " ++ pBool (o.c.orderOf? s == some 0) | none => "err no-object")
     | _, _ => (w, "err args"))
   | "eposall" => (match w.embs.find? (·.1 == h) with
-    | some e => (w, match w.obj? e.2.cx with | some o => "ok " ++ pNameSet ((o.c.ofOrder 0).map (·.name)) | none => "err no-object")
+    | some e =>
+      (match w.obj? e.2.cx with
+      | some o =>
+        -- `positionsOf()`: positionOf for every point in listing order (fills the cache)
+        let pts := (o.c.ofOrder 0).map (·.name)
+        let st := match e.2.lattice with
+          | some _ => e.2.st
+          | none => pts.foldl (fun st s => (Emb.positionOf st (embOrderOf w e.2) (fun _ => List.replicate e.2.st.dim (0 : Int)) s).2) e.2.st
+        ({ w with embs := w.embs.map (fun x => if x.1 == h then (h, { e.2 with st := st }) else x) }, "ok " ++ pNameSet pts)
+      | none => (w, "err no-object"))
     | none => (w, "err no-emb"))
   | "vr" =>
     -- vr <emb> <new> [i.j,i.j,...] : closeness of point pairs as decided by the real distance function
